@@ -292,6 +292,10 @@ func genHistory(r *Rng, p HistProfile, feat Feat, exec func(Op) OpResult) []Op {
 			if r.Chance(35) {
 				o.Meta = genMeta(r, p)
 			}
+			if r.Chance(12) { // a client echoing the metadata of an earlier revert: the reserved mark key with another id
+				o.Meta = append(append([]KV{}, o.Meta...), KV{"com.formance.spec/state/reverts", fmt.Sprint(1 + r.Intn(int(ntx)+1))})
+				sort.Slice(o.Meta, func(i, j int) bool { return o.Meta[i].K < o.Meta[j].K })
+			}
 			ntx++
 		case k < 72:
 			o.Kind = "setmeta"
